@@ -46,14 +46,15 @@ theorem pubCount_mkProcs (progs : List Prog) (b : Bid) : pubCount (mkProcs progs
   have := (getElem?_mkProcs (List.getElem?_eq_getElem hi)).2
   simp [this]
 
-theorem reach_pubInv (H : Nat → Nat) (ff : Bool) (g : Store) (progs : List Prog) (sched : List Pid) :
-    PubInv (run H ff (initSt g progs) sched) :=
-  run_inv H ff (fun s p => pubInv_step H ff s p) _ (init_pubInv g progs) sched
+theorem reach_pubInv (H : Nat → Nat) (cfg : Cfg) (g : Store) (progs : List Prog) (sched : List Pid) :
+    PubInv (run H cfg (initSt g progs) sched) :=
+  run_inv H cfg (fun s p => pubInv_step H cfg s p) _ (init_pubInv g progs) sched
 
 
-/-- a consistent store in which repo.json exists and records exactly the installed packages -/
+/-- a consistent store: repo.json (missing and empty both mean "no package") records exactly the installed
+packages with the sizes of their pkg.json -/
 structure GoodStoreFF (g : Store) (L : List (Bid × Nat)) : Prop where
-  repo : g.repo = .valid L
+  repo : logicalOf g.repo = L
   nodup : (keys L).Nodup
   recorded : ∀ b sz, (b, sz) ∈ L → ∃ d m, g.final b = some d ∧ d.info = some (.valid m) ∧ m.size = sz
   pkgs : ∀ b d, g.final b = some d → ∃ m, d.info = some (.valid m) ∧ (b, m.size) ∈ L
@@ -74,11 +75,15 @@ theorem init_invFF (g : Store) (L : List (Bid × Nat)) (progs : List Prog) (hg :
   · intro i j pi pj hi _ hw
     rw [(getElem?_mkProcs hi).1] at hw; cases hw
 
-theorem reach_invFF (H : Nat → Nat) (g : Store) (L : List (Bid × Nat)) (progs : List Prog) (hg : GoodStoreFF g L)
-    (sched : List Pid) : ∃ L', InvFF (run H true (initSt g progs) sched) L' :=
-  run_inv (P := fun s => ∃ L', InvFF s L') H true (fun s p ⟨L', h⟩ => invFF_step H s L' p h) _
-    ⟨L, init_invFF g L progs hg⟩ sched
+theorem init_repoNA (g : Store) (progs : List Prog) : RepoNA (initSt g progs) := by
+  intro i pi hi hn
+  rw [(getElem?_mkProcs hi).1] at hn; cases hn
 
+theorem reach_invFF (H : Nat → Nat) (g : Store) (L : List (Bid × Nat)) (progs : List Prog) (hg : GoodStoreFF g L)
+    (sched : List Pid) : ∃ L', InvFF (run H Cfg.fixed (initSt g progs) sched) L' :=
+  (run_inv (P := fun s => (∃ L', InvFF s L') ∧ RepoNA s) H Cfg.fixed
+    (fun s p ⟨⟨L', h⟩, hn⟩ => ⟨invFF_step H s L' p h hn, repoNA_step H s p hn⟩) _
+    ⟨⟨L, init_invFF g L progs hg⟩, init_repoNA g progs⟩ sched).1
 
 theorem goodStore_empty (H : Nat → Nat) : GoodStore H emptyStore :=
   ⟨by simp [emptyStore], by intro b d h; simp [emptyStore] at h, by intro b; simp [emptyStore, present]⟩
@@ -104,5 +109,11 @@ theorem goodStoreFF_g1 : GoodStoreFF g1 [(1, 5)] := by
       exact ⟨⟨1, 5, [100]⟩, rfl, by simp⟩
     · simp [g1, upd, e] at h
 
+
+/-- the empty store (no directory, no repo.json) is consistent -/
+theorem goodStoreFF_empty : GoodStoreFF emptyStore [] := by
+  refine ⟨rfl, by simp [keys], ?_, ?_⟩
+  · intro b sz h; cases h
+  · intro b d h; simp [emptyStore] at h
 
 end C15
